@@ -628,11 +628,14 @@ class EventGenerator:
                 yield from self.convert_dataclass(value, namespace)
         elif var.is_element:
             xsi_type = self.xsi_type(var, value, namespace)
+            # The object is not None: only an empty instance of a nillable
+            # class is written as xsi:nil, the field being nillable is
+            # no reason, the parser would bind None
             yield from self.convert_dataclass(
                 value,
                 namespace,
                 var.qname,
-                var.nillable,
+                False,
                 xsi_type,
             )
         else:
